@@ -20,7 +20,7 @@ Histories (each run twice: relying on autoflush / calling flush() first -- the p
   3. primary key changed in memory, then an expired column attribute is read
        autoflush: ObjectDeletedError (SELECT for the old key after the flush moved the row)    explicit flush: value
 
-Minimal repair of site 1 of 3 (expired-attribute load; mirror of Session.refresh) -- see notes/str-q.md for test results:
+Minimal repair of sites 1 and 2 (mirror of Session.refresh; test results in notes/str-q.md):
 
     --- a/lib/sqlalchemy/orm/loading.py   (_load_scalar_attributes)
          no_autoflush = bool(passive & attributes.NO_AUTOFLUSH)
@@ -29,10 +29,18 @@ Minimal repair of site 1 of 3 (expired-attribute load; mirror of Session.refresh
     +        # read below may be changed by the flush
     +        session._autoflush()
     +        no_autoflush = True
+    --- a/lib/sqlalchemy/orm/strategies.py   (_LazyLoader._emit_lazyload)
+             if pending or passive & attributes.NO_AUTOFLUSH:
+                 stmt._execution_options = util.immutabledict({"autoflush": False})
+    +        else:
+    +            # autoflush before the lazy clause parameters are read
+    +            session._autoflush()
 
-The lazy loader needs the same (autoflush before _get_ident_for_use_get / _generate_lazy_clause when
-`not pending and not passive & NO_AUTOFLUSH and passive & SQL_OK`); that changes when flushes happen for identity-map
-hits of many-to-one loads, so it is a behavioural decision for the lead (known finding vs fix).
+Site 3 (many-to-one identity-map hit in _load_for_state: no flush and no SQL at all) would need an autoflush before
+_get_ident_for_use_get when `not pending and passive & SQL_OK and not passive & NO_AUTOFLUSH`; with it all three
+histories agree, but test/orm/test_backref_mutations.py::O2OScalarBackrefMoveTest_legacy_style::
+test_scalar_move_notloaded asserts the un-flushed answer ("stays on both sides"), so that site can only be recorded
+as a known finding.
 
 Run:  cd /tmp && /venv/bin/python /verif/findings/C47_state_keyed_loads_bind_before_autoflush.py   (exit 1 = defect present)
 """
